@@ -243,6 +243,11 @@ def do_run(prop, tier, seed):
             if not empty:
                 subprocess.run([exes[flavours[0]], "emit-corpus", cdir, target, "--n", "24", "--seed", str(sd)],
                                stdout=subprocess.PIPE, stderr=subprocess.PIPE, env=env)
+                # hand-written seeds for the rarer reader features (several N rows, markers, SOS, blank set names, ...)
+                sdir = os.path.join(VERIF, "corpus", "seeds", "lp" if target == "lpgz" else target)
+                if os.path.isdir(sdir):
+                    for fn in sorted(os.listdir(sdir)):
+                        shutil.copy(os.path.join(sdir, fn), os.path.join(cdir, "seed-" + fn))
             statf = os.path.join(scratch, "fzstats_%s.json" % tag)
             e2 = dict(env)
             e2["QSX_FUZZ_TARGET"] = target
@@ -421,9 +426,14 @@ def do_replay(prop, path):
         exe = os.path.join(binaries("asan"), "qsx")
         if PLAN.get(prop, {}).get("needs_esolver"):
             binaries("opt")
-        variant = variant_of_file(prop, path)
-        verdict, sig, out = run_replay(exe, prop, variant, os.path.abspath(path), env)
-        sys.stderr.write(out)
+        if path.endswith(".bin"):
+            fexe = os.path.join(binaries("fuzz", need_fuzz=True), "qsx_fuzz")
+            ok, sig, out = fuzz_replay(fexe, path, env)
+            verdict = "PASS" if ok else "FAIL"
+        else:
+            variant = variant_of_file(prop, path)
+            verdict, sig, out = run_replay(exe, prop, variant, os.path.abspath(path), env)
+        sys.stderr.write(out[-4000:])
         if verdict == "FAIL":
             known = load_known()
             k = next((k for k in known if k.get("state") == "known" and k.get("property") == prop and k.get("key") == sig), None)
